@@ -6,6 +6,8 @@ package checkgroup
 import (
 	"context"
 	"sync"
+
+	"github.com/ory/keto/internal/x/verifhook"
 )
 
 // A concurrentCheckgroup is a collection of goroutines performing checks.
@@ -89,6 +91,7 @@ func (g *concurrentCheckgroup) startConsumer() {
 			g.reserveCheckCh <- struct{}{}
 
 			for {
+				verifhook.Point("cg.loop")
 				select {
 				case check := <-g.addCheckCh:
 					if finalizing {
@@ -150,6 +153,7 @@ func (g *concurrentCheckgroup) Done() bool {
 func (g *concurrentCheckgroup) Add(check CheckFunc) {
 	select {
 	case <-g.reserveCheckCh:
+		verifhook.Point("cg.add")
 		select {
 		case g.addCheckCh <- check:
 		case <-g.subcheckCtx.Done():
@@ -185,6 +189,7 @@ func (g *concurrentCheckgroup) Result() Result {
 func (g *concurrentCheckgroup) CheckFunc() CheckFunc {
 	return func(ctx context.Context, resultCh chan<- Result) {
 		g.tryFinalize()
+		verifhook.Point("cg.checkfunc")
 
 		select {
 		case <-g.doneCh:
